@@ -100,6 +100,47 @@ def c_car(ex, recv, args, kwargs, q, node):
     return outs
 
 
+# ---- origin-of-names layer (for "the reported paths are pairwise distinct") -------------------------------------------------
+# Ghost/abstract state of a map m, next to the visible-name set A:
+#     RN[r]   the name recorded with resource r        (_resources[id(r)][1])
+#     WN[w]   the name recorded with window w, WAn[w]  whether it is None        (_windows[id(w)][1])
+#     Src[x]  GHOST: the direct origin (resource / window identity) of visible name x
+#     NSc(c, x)  name x is visible in the map with identity c (a frozen child's namespace)
+# Invariant `origins`:  every resource's name is visible and originates from it; likewise every named window's name; every
+# name of an anonymous window's namespace is visible and originates from that window.  With prefix-freeness this makes the first
+# path elements of resources behind different range entries different names.
+IntArr = z3.ArraySort(z3.IntSort(), z3.IntSort())
+NSc = z3.Function("NSc", z3.IntSort(), z3.IntSort(), z3.BoolSort())
+FN = z3.Function("FirstNameOfPath", z3.IntSort(), z3.IntSort(), z3.IntSort())      # (child map, resource) -> first path element
+
+
+class Origins:
+    def __init__(self, tag):
+        self.RN, self.WN, self.Src = (z3.Const(f"{f}_{tag}", IntArr) for f in ("RN", "WN", "Src"))
+        self.WAn = z3.Const(f"WAn_{tag}", BoolArr)
+
+    def updated(self, **kw):
+        o = Origins.__new__(Origins)
+        for f in ("RN", "WN", "Src", "WAn"):
+            setattr(o, f, kw.get(f, getattr(self, f)))
+        return o
+
+
+def origins_parts(v, A, o):
+    r, w, x = z3.Ints("or_r or_w or_x")
+    return [
+        ("resource-names-visible-and-own", z3.ForAll([r], z3.Implies(v.isres[r], z3.And(A[o.RN[r]], o.Src[o.RN[r]] == r)))),
+        ("window-names-visible-and-own", z3.ForAll([w], z3.Implies(z3.And(v.iswin[w], z3.Not(o.WAn[w])),
+                                                                   z3.And(A[o.WN[w]], o.Src[o.WN[w]] == w)))),
+        ("absorbed-names-visible-and-from-their-window", z3.ForAll([w, x], z3.Implies(z3.And(v.iswin[w], o.WAn[w], NSc(w, x)),
+                                                                                      z3.And(A[x], o.Src[x] == w)))),
+    ]
+
+
+def origins(v, A, o):
+    return z3.And(*[f for _, f in origins_parts(v, A, o)])
+
+
 def naming_map(name, q):
     m, h = mm.new_map(name, q)
     q.ghost[("handles", id(m))] = h
@@ -107,6 +148,9 @@ def naming_map(name, q):
     A = z3.Const(f"visible_names_{name}", BoolArr)
     q.ghost[("assigned", id(m))] = A
     q.assume(prefix_free(A))
+    o = Origins(name)
+    h["origins"] = o
+    h["origins_inv"] = origins(h["view"], A, o)        # opt-in premise
     return m, h, A
 
 
@@ -159,6 +203,15 @@ def verify_add_resource_naming():
         fv.add("namespace-stays-prefix-free", lab, p.pc, prefix_free(A1))
         nm = p.ghost.get("names", {}).get((id(self_), str(resource.ident)))
         fv.add("resource-recorded-under-the-validated-name", lab, p.pc, z3.BoolVal(isinstance(nm, NameV) and n is not None and nm.ident is n))
+        if n is not None:
+            o0 = h["origins"]
+            o1 = o0.updated(RN=z3.Store(o0.RN, resource.ident, n), Src=z3.Store(o0.Src, n, resource.ident))     # ghost update
+            v1 = mm.view_of(p, self_)
+            grow = z3.ForAll([_r], A1[_r] == z3.Or(A[_r], _r == n))
+            pre = list(p.pc) + [h["origins_inv"], grow, z3.Not(A[n])]          # cuts: proved above (n unrelated => not visible)
+            fv.add("new-name-was-not-visible", lab, list(p.pc), z3.Not(A[n]))
+            for cn, f in origins_parts(v1, A1, o1):
+                fv.add("origins-preserved:" + cn, lab, pre, f)
     fv.add("cover:accepting-and-name-refusing-paths-exist", "vacuity", [], z3.BoolVal(n_ret > 0 and n_name_refusals > 0))
     fv.add_engine_obligations(ex)
     return fv
@@ -234,6 +287,14 @@ def verify_add_window_naming():
             fv.add("visible-names-grow-by-exactly-the-name", lab, p.pc, z3.ForAll([_r], A1[_r] == z3.Or(A[_r], _r == n)))
             nm = p.ghost.get("names", {}).get((id(self_), str(window.ref)))
             fv.add("window-recorded-under-the-validated-name", lab, p.pc, z3.BoolVal(isinstance(nm, NameV) and nm.ident is n))
+            o0 = h["origins"]
+            o1 = o0.updated(WN=z3.Store(o0.WN, window.ref, n), WAn=z3.Store(o0.WAn, window.ref, False), Src=z3.Store(o0.Src, n, window.ref))
+            v1 = mm.view_of(p, self_)
+            grow = z3.ForAll([_r], A1[_r] == z3.Or(A[_r], _r == n))
+            fv.add("new-name-was-not-visible", lab, list(p.pc), z3.Not(A[n]))
+            pre = list(p.pc) + [h["origins_inv"], grow, z3.Not(A[n])]
+            for cn, f in origins_parts(v1, A1, o1):
+                fv.add("origins-preserved:" + cn, lab, pre, f)
         else:
             n_anon += 1
             fv.add("anonymous-window-accepted-only-if-none-of-its-names-is-related-to-a-visible-name", lab, p.pc,
@@ -242,10 +303,61 @@ def verify_add_window_naming():
             nm = p.ghost.get("names", {}).get((id(self_), str(window.ref)))
             fv.add("window-recorded-as-anonymous", lab, p.pc,
                    z3.BoolVal(True) if nm is NONE else (nm.tag == T_NONE if isinstance(nm, Dyn) else z3.BoolVal(False)))
+            o0 = h["origins"]
+            newsrc = z3.FreshConst(IntArr, "Src_after")
+            o1 = o0.updated(WAn=z3.Store(o0.WAn, window.ref, True), Src=newsrc)
+            v1 = mm.view_of(p, self_)
+            absorb = z3.ForAll([_r], A1[_r] == z3.Or(A[_r], B[_r]))
+            disjoint = z3.ForAll([_r], z3.Not(z3.And(A[_r], B[_r])))
+            fv.add("absorbed-names-were-not-visible", lab, list(p.pc), disjoint)
+            pre = list(p.pc) + [h["origins_inv"], absorb, disjoint,
+                                z3.ForAll([_r], newsrc[_r] == z3.If(B[_r], window.ref, o0.Src[_r])),            # ghost update
+                                z3.ForAll([_r], NSc(window.ref, _r) == B[_r])]                                # definition of NSc for this (now frozen) window
+            for cn, f in origins_parts(v1, A1, o1):
+                fv.add("origins-preserved:" + cn, lab, pre, f)
         fv.add("namespace-stays-prefix-free", lab, p.pc, prefix_free(A1))
     fv.add("cover:named-anonymous-and-name-refusing-paths-exist", "vacuity", [], z3.BoolVal(n_named > 0 and n_anon > 0 and n_name_refusals > 0))
     fv.add_engine_obligations(ex)
     return fv
 
 
-ALL = [verify_add_resource_naming, verify_add_window_naming]
+def verify_all_resources_paths():
+    """all_resources(): the FIRST element of every reported path is a visible name of this map whose origin is the range entry
+    the resource was reached through (so this map keeps, towards ITS parent, the promise it assumes of its children)."""
+    from . import memory_c03 as c03
+    state = {}
+
+    def pre_hook(q, self_, h, named):
+        A = z3.Const("visible_names_self", BoolArr)
+        o = Origins("self")
+        state.update(A=A, o=o)
+        q.assume(z3.And(prefix_free(A), origins(h["view"], A, o)))
+
+    def yield_hook(fv, lab, p, pth, idx, ci, named, self_, h):
+        A, o, v = state["A"], state["o"], h["view"]
+        ent = v.V[idx]
+        pre = list(p.pc)
+        if ci is None:
+            ok = isinstance(pth, tuple) and len(pth) == 1 and isinstance(pth[0], mm.NameOf)
+            F = o.RN[pth[0].ident] if ok else None
+        elif named:
+            ok = isinstance(pth, tuple) and len(pth) == 2 and isinstance(pth[0], mm.NameOf)
+            F = o.WN[pth[0].ident] if ok else None
+            pre.append(z3.Not(o.WAn[ent]))          # this case: the stored window name is a Name (IdDictModel.window_name_case)
+        else:
+            ok = pth is ci.path
+            F = FN(ent, ci.resource.ident)
+            # the child's promise (this same clause, one level down): the first element of its path is visible in the child
+            pre += [o.WAn[ent], NSc(ent, F)]
+        fv.add("first-path-element-is-a-visible-name-originating-from-the-range-entry", lab, pre,
+               z3.And(A[F], o.Src[F] == ent) if F is not None else z3.BoolVal(False))
+    fv = c03.verify_all_resources("MemoryMap.all_resources[paths]", pre_hook, yield_hook, only_hook=True)
+    # two resources reached through DIFFERENT range entries have different, hence (prefix-freeness) unrelated first names
+    A, o = state["A"], state["o"]
+    e1, e2, f1, f2 = z3.Ints("e1 e2 f1 f2")
+    fv.add("paths-through-different-entries-start-with-unrelated-names", "lemma",
+           [prefix_free(A), A[f1], A[f2], o.Src[f1] == e1, o.Src[f2] == e2, e1 != e2], z3.And(f1 != f2, z3.Not(related(f1, f2))))
+    return fv
+
+
+ALL = [verify_add_resource_naming, verify_add_window_naming, verify_all_resources_paths]
